@@ -25,6 +25,12 @@ RULE = ('Keys also in other valid DER encodings (bare PKCS#1, SPKI '
         'leading zeros, "-" iff top bit set, never "-0". Non-trivial: '
         'digest class other than "positive without leading zero nibble"; '
         'distinct by digest.')
+RULE += (' ' +
+         'Added in later rounds: four DER encodings of the key; the full '
+         'login path (delegated to C10) with non-ASCII and dash-prefixed '
+         'server ids and with a session service that refuses the first join '
+         'attempts (every join names one hash); two overlapping join() calls '
+         'on shared and separate tokens. ')
 LEVEL_TEXT = ('Differential testing against an independent Java-BigInteger '
               'hex reference with directed search for every digest edge '
               'class plus crafted digests and seeded random inputs.')
